@@ -27,6 +27,14 @@ import simrun
 
 sys.path.insert(0, os.path.join(vlib.VERIF, "tools"))
 
+# local work-around: scratch build trees of alternative repositories (`VERIF_REPO=...`, mutation tests) are
+# named .build/alt_*; other jobs remove `.build/alt_*` while a C09 run (which needs the whole binary for minutes)
+# is still using its tree, so C09 keeps its alternative trees under another name
+if vlib.REPO != "/repo" and os.path.basename(vlib.BUILD).startswith("alt_"):
+    vlib.BUILD = os.path.join(vlib.VERIF, ".build", "c09" + os.path.basename(vlib.BUILD))
+    vlib.BIN = os.path.join(vlib.BUILD, "bin")
+    vlib.FULL = os.path.join(vlib.BUILD, "full")
+
 GROUPS = ["primitives", "conserved", "delta_conserved", "gradients", "limiters(not stored)", "acceleration+energy terms",
           "ionization variables", "geometry incl. derived fields", "subgrid bookkeeping (not stored)",
           "requested_timestep", "actual_timestep", "current_time", "has_next_step", "hydro_lastsnap"]
@@ -311,3 +319,247 @@ def experiment(binary, cfg, root, keep_dump=True):
         k += 1
     res["runs"] = R.nruns + R2.nruns
     return res
+
+
+# --------------------------------------------------------------------------- the check
+
+COMPONENTS = ["CoordinateVector<double>", "CoordinateVector<int_fast32_t>", "CoordinateVector<bool>", "Box<double>", "RandomGenerator",
+              "TimeLine", "Timer", "HydroVariables", "IonizationVariables", "DensitySubGrid", "HydroDensitySubGrid",
+              "DensitySubGridCreator<HydroDensitySubGrid>", "AlveliusTurbulenceForcing", "RescaledICHydroMask", "HydroMaskFactory",
+              "YAMLDictionary", "ParameterFile", "SingleStarPhotonSourceDistribution", "SingleSupernovaPhotonSourceDistribution",
+              "UniformRandomPhotonSourceDistribution", "DiscPatchPhotonSourceDistribution", "CaproniPhotonSourceDistribution",
+              "AsciiFilePhotonSourceDistribution", "PhotonSourceDistributionFactory"]
+# restartable classes that the component harness does not drive (old grid classes need most of the library)
+NOT_DRIVEN = ["DensityGrid", "CartesianDensityGrid", "DensityGridFactory", "StatisticsLogger", "LiveOutputManager", "do_simulation"]
+
+
+def fnv_bytes(b):
+    h = 14695981039346656037
+    for c in b:
+        h = ((h ^ c) * 1099511628211) & 0xFFFFFFFFFFFFFFFF
+    return h
+
+
+def first_diff(a, b, path=""):
+    """first position where two resolved item lists differ (for the report)"""
+    for i in range(max(len(a), len(b))):
+        if i >= len(a) or i >= len(b):
+            return "%sitem %d: %s" % (path, i, "only written: %r" % (a[i][:3],) if i < len(a) else "only read: %r" % (b[i][:3],))
+        x, y = a[i], b[i]
+        if x[0] != y[0]:
+            return "%sitem %d: written %r, read %r" % (path, i, x[:3], y[:3])
+        if x[0] == "prim":
+            if x[1:3] != y[1:3]:
+                return "%sitem %d: written as %s (%d bytes: %s), read as %s (%d bytes: %s)" % (path, i, x[1], x[2], x[4], y[1], y[2], y[4])
+        else:
+            if x[1] != y[1]:
+                return "%sloop %d: count written %r (%s), read %r (%s)" % (path, i, x[1], x[3], y[1], y[3])
+            d = first_diff(x[2], y[2], path + "loop %d / " % i)
+            if d:
+                return d
+    return None
+
+
+def translator(ctx):
+    import gen_c09_schemas
+    try:
+        info = gen_c09_schemas.generate()
+    except gen_c09_schemas.GenError as e:
+        ctx.broken_obligation("translator tools/gen_c09_schemas.py cannot parse the restart functions of the current tree: %s" % e, str(e))
+        return None
+    ctx.cov["translator"] = {"classes": len(info["classes"]), "files": len(info["files"]), "notes": info["notes"],
+                             "prims_per_class": {k: v[0] for k, v in info["prims"].items()},
+                             "types": {k: "%s/%d" % tuple(v) for k, v in info["types"].items()}, "constants": info["consts"],
+                             "macros_defined": sorted(k for k, v in info["macros"].items() if v)}
+    return info
+
+
+def translator_oracles(ctx, info):
+    """what the generated tables say about the implementation, as concrete findings (the Lean build then fails as well)"""
+    import gen_c09_schemas as g
+    bad = [n for n in info["classes"] if not info["equal"][n]]
+    if bad:
+        # re-derive the two lists for the report
+        for n in bad:
+            ctx.violation("schema:write-read-mismatch:%s" % n,
+                          "%s: the items written by write_restart_file are not the items read by the restart constructor (%s)" % (n, info.get("diff", {}).get(n, "see Gen/RestartSchemas.lean: %s_write vs %s_read" % (g.lean_name(n), g.lean_name(n)))),
+                          {"class": n, "generated": "lean/CMacVerif/Gen/RestartSchemas.lean", "theorem": "schemas_match"})
+    dc = {(c, lhs): (e, t) for (c, lhs, e, t) in info["derived"]["ctor"]}
+    dr = {(c, lhs): (e, t) for (c, lhs, e, t) in info["derived"]["restart"]}
+    for k in sorted(set(dc) | set(dr), key=str):
+        a, b = dc.get(k), dr.get(k)
+        name = "%s.%s[%d]" % (k[0], k[1][0], k[1][1])
+        if a is None or b is None:
+            ctx.violation("derived:only-one-constructor-sets:%s" % name, "%s is not stored in the restart file and is set by %s only (%s)" % (
+                name, "the normal construction path" if b is None else "the restart constructor", (a or b)[1]), {"field": name, "theorem": "derived_same_expression"})
+        elif a[0] != b[0]:
+            ctx.violation("derived:expression-differs:%s" % name, "%s is not stored in the restart file; the constructor computes it as `%s`, the restart constructor as `%s`" % (name, a[1].strip(), b[1].strip()),
+                          {"field": name, "ctor": a[1], "restart": b[1], "theorem": "derived_same_expression"})
+        elif "other" in str(a[0]):
+            ctx.violation("derived:depends-on-unstored-value:%s" % name, "%s is recomputed from something that is not in the restart file: `%s`" % (name, a[1].strip()), {"field": name, "theorem": "derived_same_expression"})
+
+
+def component_ops(ctx, scratch):
+    per = ctx.budget(12, 120)
+    ops = []
+    for ci, c in enumerate(COMPONENTS):
+        for k in range(per):
+            ops.append("comp %s c%d_%d %s %d" % (c, ci, k, os.path.join(scratch, "c%d_%d.bin" % (ci, k)), ctx.rng.randrange(1, 2 ** 40)))
+    return ops
+
+
+def run(ctx):
+    ctx.level = "other"
+    ctx.assumptions += [
+        "PROVED (Lean): codec round trip for every schema/value; write schema = read schema for every restartable class, factory and the top-level dump (generated, decide); not-stored subgrid members recomputed by the same expression; limiter array reset at the end of every step; identical continuation for every deterministic step function preserving these facts, for every stop point and every chain of stop/restart cycles",
+        "NOT PROVED, validated by the experiments of this run: that stored + derived + transient members are everything a step reads (the step function of continuation_identical_partial is abstract); the other not-stored members (active buffers, largest-buffer cache, hydro task indices, task tables, queues) are compared by digest only",
+        "one thread; pure hydrodynamics (do radiation: false); the photon random stream is deliberately re-seeded on restart and wall-clock timers are excluded, as the property says",
+        "translator (textual): initialiser lists are in member declaration order (checked), braced lists are evaluated left to right, `_subgrids[i]->write_restart_file` dispatches to the template argument type, typeid(X).name() of a global class is <len><name>; every C++ type width / constant / macro comes from a probe compiled against the current headers; the translator is validated on this run by decoding bytes the real classes and the real binary wrote and by the code's own RESTARTWRITER_INFO / RESTARTREADER_INFO logs",
+        "strings are NUL-free and map keys strictly increasing (std::map) — the reader goes through char* (embedded NUL would truncate; noted in DESIGN, not a claim)",
+        "loop counts are products in N; the C++ evaluates them in 64-bit integers (no overflow for any grid that fits in memory)",
+    ]
+    info = translator(ctx)
+    if info is not None:
+        translator_oracles(ctx, info)
+    ok = ctx.obligations("CMacVerif.Props.C09", ["drv_c09"])
+    rule = []
+    # ---- (a) components through the real classes
+    scratch = tempfile.mkdtemp(prefix="verif_c09_")
+    try:
+        h = vlib.build_harness("c09", extra=["-DOMPI_SKIP_MPICXX"])
+        ops = vlib.corpus_ops("C09") + component_ops(ctx, scratch)
+        if ok:
+            n, impl, model, orc = ctx.correspond("components", h, vlib.driver("drv_c09"), ops,
+                                                 cmp=lambda a, b, op: a == vlib.strip_branch(b),
+                                                 oracle_key=lambda what, grp: "component:" + ":".join(what.split()[:2]).rstrip(":"))
+            for op, il, ml in zip(ops, impl, model):
+                w = op.split()
+                ctx.count()
+                ctx.branch("component-" + w[1])
+                m = re.search(r"bytes=(\d+)", il)
+                ctx.distinct((w[1], il), nontrivial=bool(m) and int(m.group(1)) > 24)
+                if "#NOT-conforming" in ml:
+                    ctx.broken_obligation("the value decoded from the bytes of %s is outside the domain `conf` of codec_roundtrip (op %r)" % (w[1], op))
+            for i in (0, len(COMPONENTS) * 3 + 1, len(ops) - 1):
+                if i < len(impl):
+                    ctx.sample({"op": ops[i], "real classes": impl[i][:300], "lean codec": model[i][:300] if i < len(model) else None})
+        else:
+            # the Lean side does not build (reported above): the oracles of the real classes are still evaluated
+            rc, out, err = vlib.run_exe(h, "\n".join(ops) + "\n")
+            impl, orc = vlib.split_oracle(out)
+            ctx.count(len(impl))
+            for o in orc:
+                m = re.search(r"line=(\d+)", o)
+                i = int(m.group(1)) - 1 if m else 0
+                what = re.sub(r"line=\d+\s*", "", o[len("ORACLE"):]).strip()
+                ctx.violation("component:" + ":".join(what.split()[:2]).rstrip(":"), "property fails on the implementation: " + what,
+                              {"stream": "components", "ops": [ops[i]] if i < len(ops) else [], "oracle": o})
+        rule.append("(a) %d restartable classes driven through the real code (%d random states each: doubles over 40 decades incl. 0, -0, inf, DBL_MAX, denormal; boxes with dyadic and non-dyadic cell sizes; subgrids at a dump point, with copies): "
+                    "write -> read (heap poisoned with 0xAA) -> write, bytes compared, not-stored members compared, continuation (next random numbers / time steps / forcing / mask / source update) compared; the same bytes decoded by the Lean reader with the generated schema, re-encoded and the code's own size log reproduced. Not driven: %s"
+                    % (len(COMPONENTS), ctx.budget(12, 120), ", ".join(NOT_DRIVEN)))
+    finally:
+        shutil.rmtree(scratch, ignore_errors=True)
+    # ---- (b) whole runs of the real binary
+    binary = vlib.full_binary()
+    nsteps = ctx.budget(6, 12)
+    ncfg = ctx.budget(10, 64)
+    forced = [{"feature": "plain", "dyadic": False, "layout": (2, 2, 1)}, {"feature": "plain", "dyadic": True, "layout": (1, 1, 1)},
+              {"feature": "mask", "dyadic": False}, {"feature": "turbulence", "dyadic": False, "layout": (2, 1, 1)},
+              {"feature": "gravity", "dyadic": False}, {"feature": "mask+turbulence", "dyadic": True, "layout": (2, 2, 2)}]
+    cfgs = [gen_config(ctx.rng, i, nsteps, forced[i] if i < len(forced) else None) for i in range(ncfg)]
+    root = tempfile.mkdtemp(prefix="verif_c09_runs_")
+    dump_ops, dump_exp, dump_cfg = [], [], []
+    try:
+        with concurrent.futures.ThreadPoolExecutor(max_workers=8) as ex:
+            futs = {ex.submit(experiment, binary, c, os.path.join(root, c["id"])): c for c in cfgs}
+            results = [f.result() for f in concurrent.futures.as_completed(futs)]
+        results.sort(key=lambda r: r["cfg"]["id"])
+        nohook = 0
+        for r in results:
+            c = r["cfg"]
+            ctx.count(r["runs"])
+            dy = is_dyadic(c)
+            ctx.branch("runs-" + c["feature"])
+            ctx.branch("cellsize-" + ("dyadic" if dy else "non-dyadic"))
+            ctx.branch("digests-compared", r["compared"])
+            for b, n in r["branches"].items():
+                ctx.branch("restart-" + b, n)
+            ctx.distinct((c["id"], tuple(c["layout"]), tuple(c["cells"]), tuple(c["box"]), c["feature"]), nontrivial=r.get("state_changes", 0) >= 2 and r["restarts"] > 0)
+            if len(ctx.cov["samples"]) < 6:
+                ctx.sample({"layout": c["layout"], "cells per subgrid": c["cells"], "box": c["box"], "periodic": c["periodic"], "boundary": c["boundary"], "feature": c["feature"],
+                            "steps": r.get("steps"), "runs": r["runs"], "restarts": r["restarts"], "digests compared": r["compared"], "distinct states over the steps": r.get("state_changes")})
+            for (key, text, extra) in r["problems"]:
+                if key == "machinery:no-digest":
+                    nohook += 1
+                    continue
+                ctx.violation(key + ":" + c["feature"] if key.startswith("restart:") and c["feature"] != "plain" else key,
+                              "%s [layout %s, %s cells per subgrid, box %s, %s, cell size %s]" % (text, c["layout"], c["cells"], c["box"], c["feature"], "dyadic" if dy else "non-dyadic"),
+                              dict(extra, cfg=c, param=param_text(c), cmd="CMacIonize --params run.param --threads 1 --task-based-rhd --number-of-steps k ; ... --restart . --number-of-steps N"))
+            if r.get("dump"):
+                p = os.path.join(root, c["id"], "A", "restart.dump")
+                dump_ops.append("dump %s %d %d" % (p, 1 if c.get("mask") else 0, 1 if c.get("turbulence") else 0))
+                dump_exp.append((len(r["dump"]), fnv_bytes(r["dump"])) if len(r["dump"]) < 3000000 else None)
+                dump_cfg.append(c)
+        if nohook:
+            ctx.broken_obligation("%d of %d configurations: no state digests in the trace of the real binary — the C09 digest hook (seeded/_hook_c09.diff: HydroDensitySubGrid::verif_state_digest + two call sites in TaskBasedRadiationHydrodynamicsSimulation.cpp) is not in this tree" % (nohook, len(results)))
+        # the real restart.dump files decoded by the Lean reader with the generated top-level schema
+        if ok and dump_ops:
+            rc, out, err = vlib.run_exe(vlib.driver("drv_c09"), "\n".join(dump_ops) + "\n")
+            lines = [l for l in out.split("\n") if l]
+            st = ctx.cov["correspondence_streams"].setdefault("restart.dump", {"lines": 0, "mismatches": 0})
+            st["lines"] += len(dump_ops)
+            for op, exp, c, l in zip(dump_ops, dump_exp, dump_cfg, lines + ["<missing>"] * len(dump_ops)):
+                ctx.count()
+                if exp is None:
+                    continue
+                want = "dump bytes=%d rest=0 fnv=%d" % exp
+                if not l.startswith(want) or not l.endswith("conf=true"):
+                    st["mismatches"] += 1
+                    ctx.broken_obligation("correspondence stream 'restart.dump': the dump written by the real binary (%s, layout %s) is not what the generated top-level schema describes: expected %r..., Lean reader: %r" % (c["feature"], c["layout"], want, l),
+                                          json.dumps({"cfg": c, "param": param_text(c), "model": l}, default=str)[:3000])
+                else:
+                    ctx.branch("restart.dump-decoded-exactly")
+            if lines:
+                ctx.sample({"restart.dump of the real binary decoded by the Lean reader": lines[0]})
+    finally:
+        shutil.rmtree(root, ignore_errors=True)
+    rule.append("(b) %d generated pure-hydro configurations (forced: non-dyadic and dyadic cell sizes, 1..8 subgrids, RescaledIC mask, Alvelius turbulence forcing, point-mass gravity; random: layouts, cells per subgrid, box, anchor, periodic/reflective/inflow/outflow boundaries, gamma, CFL, BlockSyntax initial condition with moving blobs), %d steps, 1 thread: "
+                "stopped with --number-of-steps k and restarted for EVERY k, a chain restarted after every single step, a chain stopped through the stop file; every restarted process compared with the uninterrupted run by the digest of all cell states, limiters, geometry incl. derived members, bookkeeping members, time-step variables at its start and after every step, plus the final snapshot; "
+                "distinct = configuration; non-trivial = the state changed in at least 2 steps and at least one restart was compared" % (ncfg, nsteps))
+    ctx.cov["rule"] = " ".join(rule)
+    ctx.cov["explanation"] = ("Lean theorems cover the restart mechanism (codec, schema equality of all %s restartable classes regenerated from the source, derived members, limiter reset, continuation for an abstract step); "
+                              "the system-level statement is validated by replayable stop/restart experiments with the real binary and by write->read->write cycles of the real classes" % (len(info["classes"]) if info else "?"))
+
+
+def replay(ctx, path):
+    obj = json.load(open(path))
+    print(json.dumps({k: v for k, v in obj.items() if k not in ("param", "cfg", "ops")}, indent=1)[:3000])
+    if "ops" in obj:
+        for op in obj["ops"]:
+            w = op.split()
+            if len(w) > 3 and w[0] == "comp":
+                os.makedirs(os.path.dirname(w[3]), exist_ok=True)   # the scratch directory of the original run is gone
+        return vlib.generic_replay(ctx, path, "c09", "drv_c09", cmp=lambda a, b, op: a == vlib.strip_branch(b), harness_kw={"extra": ["-DOMPI_SKIP_MPICXX"]})
+    if "cfg" in obj:
+        cfg = obj["cfg"]
+        for k in ("layout", "cells", "box", "anchor", "periodic", "boundary"):
+            cfg[k] = tuple(cfg[k])
+        binary = vlib.full_binary()
+        root = tempfile.mkdtemp(prefix="verif_c09_replay_")
+        r = experiment(binary, cfg, root)
+        print("parameter file:\n" + param_text(cfg))
+        print("blocks.yml:\n" + cfg["blocks"])
+        for p in r["problems"][:10]:
+            print("  ", p[0], "-", p[1])
+        print("directories kept in", root)
+        print("REPRODUCED" if r["problems"] else "not reproduced")
+        return 1 if r["problems"] else 0
+    print("replay file names a broken obligation / a generated table, not an input; see the 'theorem' / 'broken' fields")
+    return 1
+
+
+MANIFEST = dict(
+    category="other",
+    text="Partial proof + replayable experiments. PROVED in Lean 4 (no sorry, standard axioms): codec_roundtrip — for EVERY restart schema (nested data-dependent loops, conditionals, factory tags) and every value, the reader (loop counts evaluated from what it has read, bool `> 0`, string through char*, map insertion) returns exactly what the writer wrote and consumes exactly its bytes, hence write->read->write is byte-identical; schemas_match — for every restartable class, factory and the top-level dump of TaskBasedRadiationHydrodynamicsSimulation the item list written equals the item list read (kinds, widths, order, loop counts), regenerated from the source on every run and decided by the kernel; derived_same_expression — every member of DensitySubGrid/HydroDensitySubGrid that is not stored is recomputed on restart by the same expression of stored members; transient_fields_reset — the not-stored limiter array has its constructor value at every dump point for every history of gradient sweeps; continuation_identical_partial / chain_identical_partial — these facts give a bit-identical continuation for every deterministic step function, every stop point and every chain of stop/restart cycles. NOT proved: that the modelled state is everything a step reads. That clause is validated on every run: the real binary is stopped after EVERY step and restarted (also in chains and through the stop file) for generated configurations (dyadic/non-dyadic cell sizes, layouts, boundaries, mask, turbulence, gravity) and compared bit for bit with the uninterrupted run at every step; real components are cycled write->read->write with poisoned memory; bytes written by the real code are decoded by the Lean reader.",
+    note="Trusted: Lean kernel + 3 axioms; translator tools/gen_c09_schemas.py (textual; fails closed; validated each run against bytes and size logs produced by the real code); digest hook (guard CMACIONIZE_VERIF); FNV-1a digests (a collision could hide a difference); one thread, pure hydro; old DensityGrid classes, StatisticsLogger, LiveOutputManager only schema-checked, not driven by the component harness.",
+    technique="Lean 4 proof (induction over schemas; generated tables decided by the kernel) + translator + differential decode of real bytes + exhaustive stop/restart experiments over all stop points with per-step state digests")
